@@ -55,6 +55,7 @@ func init() {
 			{ID: "C01.25", Desc: "every legal HTTP-date form is decoded (no length gate in front of the parser)", Run: func(c *Ctx) { ruleDateDecoderNoLengthGate(c, "C01.25") }, MinSites: 1},
 			{ID: "C01.26", Desc: "`max-age=` (an empty argument) is still an explicit expiry: the scanner drops no directive because of its argument", Run: func(c *Ctx) { ruleScannerYieldsWhateverTheArgument(c, "C01.26") }, MinSites: 1},
 			{ID: "C01.27", Desc: "an Expires that is present but not a date is an explicit expiry (presence is not validity)", Run: func(c *Ctx) { ruleExpiresFoundIsPresence(c, "C01.27") }, MinSites: 1},
+			{ID: "C01.28", Desc: "on the 304 branch the merge of the 304's fields precedes the write-back on every path", Run: func(c *Ctx) { ruleMergeBeforeWriteBack(c, "C01.28") }, MinSites: 1},
 		},
 	})
 }
